@@ -97,7 +97,8 @@ LagOnly ==
      => ViewClass(pr, w.peers[p][PF[pr]]) = mon.view[p][pr]
 
 -----------------------------------------------------------------------------
-(* schedule printing (ACTION_CONSTRAINT; always TRUE).  Registers: 1 = cover  *)
+(* schedule printing (ACTION_CONSTRAINT; always TRUE), with the outputs the    *)
+(* model expects from the last step (`exp`).  Registers: 1 = cover            *)
 (* classes seen, 2 = violation classes seen (per TLC worker).                 *)
 OutSig(out) == [i \in DOMAIN out |-> <<out[i].t, out[i].m.proto, out[i].m.kind, out[i].k>>]
 \* cover class of a step: event kind, outputs, and the situation of the peer it names (connection, tag,
@@ -120,8 +121,9 @@ ASSUME TLCSet(1, {}) /\ TLCSet(2, {})
 Report ==
   /\ (Findings # <<{}, {}, {}>> /\ Findings \notin TLCGet(2)) =>
         /\ TLCSet(2, TLCGet(2) \cup {Findings})
-        /\ PrintT(<<"VEC", ToJson([kind |-> "finding", c28 |-> bad', c27 |-> pbad', c29 |-> pan', sched |-> hist'])>>)
+        /\ PrintT(<<"VEC", ToJson([kind |-> "finding", c28 |-> bad', c27 |-> pbad', c29 |-> pan', sched |-> hist',
+                                       exp |-> OutSig(w'.out)])>>)
   /\ (CoverClass \notin TLCGet(1)) =>
         /\ TLCSet(1, TLCGet(1) \cup {CoverClass})
-        /\ PrintT(<<"VEC", ToJson([kind |-> "cover", sched |-> hist'])>>)
+        /\ PrintT(<<"VEC", ToJson([kind |-> "cover", sched |-> hist', exp |-> OutSig(w'.out)])>>)
 =============================================================================
